@@ -107,9 +107,18 @@ def extract(repo, failures):
     if ls is None:
         failures.append("backend: log_statement not found")
         d["countsOnlyLogEvents"] = False
+        d["blockingRetriesSameRequest"] = False
     else:
         d["countsOnlyLogEvents"] = len(re.findall(r"event\(\)\s*==\s*MacroMetadata::Event::Log\s*\)\s*\{\s*thread_context->increment_failure_counter", ls)) >= 2
         d["timestampBeforeContext"] = 0 <= ls.find("current_timestamp") < ls.find("get_local_thread_context")
+        # C09 (end to end): on a blocking queue a refused reservation is retried with the SAME size until it is granted
+        # (do { [sleep]; write_buffer = _prepare_write_buffer(total_size); } while (write_buffer == nullptr);) and the call
+        # then goes on to write; the dropping branch returns false instead
+        i_blk = ls.find("QueueType::BoundedBlocking")
+        blk = ls[i_blk:] if i_blk >= 0 else ""
+        d["blockingRetriesSameRequest"] = bool(re.search(
+            r"do\s*\{.*?write_buffer\s*=\s*_prepare_write_buffer\(\s*total_size\s*\)\s*;\s*\}\s*while\s*\(\s*write_buffer\s*==\s*nullptr\s*\)\s*;",
+            blk, re.S)) and 0 <= blk.find("_encode_header") and "return false" not in blk[:blk.find("_encode_header")]
     # the failure counter: incremented with one atomic read-modify-write, read-and-reset with one atomic exchange (a load
     # followed by a store would lose an increment that lands in between: the model's get-and-reset is one step)
     try:
